@@ -1,6 +1,7 @@
 (* C03 - parsers survive arbitrary bytes: no panic, no hang, bounded memory.
    Statements only; proofs are in Cbor/ParseSafety.v, Cbor/ConformanceProofs.v, Json/ParseSafety.v. *)
-From SF Require Import Base.Prelude Core.Events Cbor.Spec Cbor.Parse Cbor.ParseSafety Cbor.ConformanceProofs Json.Parse Json.ParseSafety.
+From SF Require Import Base.Prelude Core.Events Cbor.Spec Cbor.Parse Cbor.ParseSafety Cbor.ConformanceProofs Json.Parse Json.ParseSafety Ubjson.Parse.
+From SF Require Ubjson.ParseSafety.
 
 (* CBOR parser model: for every byte string, every chunking and every visitor-failure
    index the run returns events and a verdict - it is never [Panic] (no Go index or slice
@@ -56,3 +57,28 @@ Theorem C03_json_space : forall (pf : bytes -> option Z) vfail chunks evs e p,
   (length (jp_states p) <= length (concat chunks))%nat.
 Proof. exact ParseSafety.C03_json_space. Qed.
 Print Assumptions C03_json_space.
+
+(* UBJSON parser model: never Panic, for every input, chunking and visitor-failure index
+   (unconditional); never OutOfFuel unless the input contains a "$Z", "$T" or "$F" byte pair -
+   the recorded finding F2, which is real: C03_ubj_zero_typed_refuted; retained state linear
+   in the bytes received. *)
+Theorem C03_ubj_no_panic : forall vfail chunks, forallb all_bytes chunks = true ->
+  match urun_chunks vfail chunks with Panic _ => False | _ => True end.
+Proof. exact SF.Ubjson.ParseSafety.C03_ubj_no_panic. Qed.
+Print Assumptions C03_ubj_no_panic.
+
+Theorem C03_ubj_chunks_total : forall vfail chunks, forallb all_bytes chunks = true ->
+  SF.Ubjson.ParseSafety.no_zero_typed (concat chunks) = true -> exists evs e p, urun_chunks vfail chunks = Ok (evs, e, p).
+Proof. exact SF.Ubjson.ParseSafety.C03_ubj_chunks_total. Qed.
+Print Assumptions C03_ubj_chunks_total.
+
+Theorem C03_ubj_zero_typed_refuted : exists b, all_bytes b = true /\ urun_parse None b = OutOfFuel.
+Proof. exact SF.Ubjson.ParseSafety.C03_ubj_zero_typed_refuted. Qed.
+Print Assumptions C03_ubj_zero_typed_refuted.
+
+Theorem C03_ubj_space : forall vfail chunks p s err, forallb all_bytes chunks = true ->
+  up_writes uparser0 (sink0 vfail) chunks = Ok (p, s, err) -> u_t (up_cur p) <> tFail ->
+  (length (up_buf p) + length (up_stack p) + length (up_vstack p) + length (up_lstack p)
+     <= 3 * length (concat chunks))%nat.
+Proof. exact SF.Ubjson.ParseSafety.C03_ubj_space. Qed.
+Print Assumptions C03_ubj_space.
